@@ -22,6 +22,8 @@ use tokio::sync::{mpsc, oneshot};
 use tokio_util::sync::CancellationToken;
 use tracing::{Instrument, Level, Span, debug, error, event, info_span, instrument, trace, warn};
 
+#[cfg(iroh_verif)]
+pub(crate) use self::path_state::verif_c22;
 use self::path_state::RemotePathState;
 pub(crate) use self::path_watcher::PathStateReceiver;
 pub use self::{
